@@ -31,6 +31,8 @@ impl SessionHandle {
     }
 
     pub(crate) async fn events_snapshot(&self) -> Vec<Event> {
+        #[cfg(rip_verif)]
+        rip_kernel::verif::lock_point("sess.buffer", &|| self.events.try_lock().is_ok());
         self.events.lock().await.clone()
     }
 }
@@ -156,6 +158,62 @@ impl SessionEngine {
 
     pub fn continuities(&self) -> Arc<ContinuityStore> {
         self.continuity_store.clone()
+    }
+}
+
+#[cfg(rip_verif)]
+impl SessionEngine {
+    /// Verification export: the exact future `spawn_session` would spawn, returned unspawned so a
+    /// controlled scheduler can poll it.
+    pub fn verif_session_future(
+        &self,
+        handle: SessionHandle,
+        input: String,
+        continuity: Option<ContinuityRunLink>,
+        openresponses_override: Option<OpenResponsesConfig>,
+    ) -> impl std::future::Future<Output = ()> + Send + 'static {
+        let openresponses = openresponses_override.or_else(|| self.openresponses.clone());
+        run_session(SessionContext {
+            runtime: self.runtime.clone(),
+            tool_runner: self.tool_runner.clone(),
+            workspace_lock: self.workspace_lock.clone(),
+            http_client: self.http_client.clone(),
+            openresponses,
+            sender: handle.sender.clone(),
+            events: handle.events.clone(),
+            event_log: self.event_log.clone(),
+            snapshot_dir: self.snapshot_dir.clone(),
+            continuities: self.continuity_store.clone(),
+            continuity_run: continuity,
+            server_session_id: handle.session_id.clone(),
+            input,
+        })
+    }
+
+    pub fn verif_event_log(&self) -> Arc<EventLog> {
+        self.event_log.clone()
+    }
+
+    pub fn verif_snapshot_dir(&self) -> Arc<PathBuf> {
+        self.snapshot_dir.clone()
+    }
+
+    pub fn verif_tool_runner(&self) -> Arc<ToolRunner> {
+        self.tool_runner.clone()
+    }
+
+    pub fn verif_compile_context(
+        &self,
+        link: &ContinuityRunLink,
+        run_session_id: &str,
+    ) -> Result<serde_json::Value, String> {
+        crate::session::verif_compile_context_bundle_for_run(
+            self.continuity_store.as_ref(),
+            self.event_log.as_ref(),
+            self.snapshot_dir.as_ref().as_path(),
+            link,
+            run_session_id,
+        )
     }
 }
 
